@@ -346,7 +346,7 @@ def configs2(quick):
     out = [("drift", ("sh", "sh", "sh"), 8, None, 1), ("drift", ("sh", "wf", "sh"), 8, None, 1)]
     if not quick:
         out += [("sym", ("sh", "sh", "sh"), 8, None, 1), ("drift", ("sh", "wf", "wf"), 8, None, 1),
-                ("drift", ("sh", "sh", "sh"), 10, None, 1), ("drift", ("sh", "sh", "wf"), 9, 1.5, 1)]
+                ("drift", ("sh", "sh", "sh"), 10, None, 1), ("drift", ("sh", "wf", "sh"), 9, 1.5, 1)]
     return out
 
 
